@@ -131,7 +131,7 @@ def exec_read(c):
     finally:
         if o["src"] == 2 and os.path.exists(src):
             os.remove(src)
-    warned = int(any("some fields are ignored" in str(w.message) for w in ws))
+    warned = int(len(ws) > 0)          # any warning, whatever its text or category
     # identity of a row = its x value (pairwise distinct by construction)
     dl = [ln for ln in c["file"] if ln["k"] == "D"]
     xs = [ln["fv"][0] for ln in dl]
